@@ -44,6 +44,8 @@ func c08Topologies(thorough bool) []*sysgen.Spec {
 		s := sysgen.Spec{Name: "hybrid-2P2t-4E", Packages: 1, CoresPerNode: 6, Threads: 1, ClusterCores: 2, L2PerCluster: true, L3: "package", ECores: []int{2, 3, 4, 5}}
 		add(s)
 	}
+	// hybrid and clustered across two packages: the cluster stage runs with candidate sets that span packages
+	add(sysgen.Spec{Name: "2p-hybrid-clusters", Packages: 2, CoresPerNode: 4, Threads: 1, ClusterCores: 2, L2PerCluster: true, L3: "package", ECores: []int{2, 3, 6, 7}})
 	{
 		s := sysgen.Spec{Name: "2p-2c-2t-freq", Packages: 2, CoresPerNode: 2, Threads: 2}
 		freq(&s, 8)
